@@ -14,6 +14,312 @@ PASSES = ("MemoryCopyElisionPass", "InternalReturnCopyForwardingPass", "Readonly
 PRECISE = ("nop", "assign", "alloca", "add", "sub", "mload", "mstore", "mcopy", "calldatacopy", "codecopy", "returndatacopy", "dloadbytes")
 
 
+# ---- programs aimed at the copy passes (memory structs / arrays / bytestrings passed to and returned from internal functions,
+# callee-mutated parameters, caller-mutated return buffers, aliasing arguments, code / returndata sources); compiled at all
+# three optimisation levels in both tiers (4 s), in addition to the shared pass corpus
+COPY_CORPUS = []
+
+
+def _add(name, src):
+    COPY_CORPUS.append({"name": name, "src": src, "helper": None, "key": None, "prio": 0})
+
+
+_add("cp_struct_args", '''
+struct S:
+    a: uint256
+    b: uint256[3]
+    c: Bytes[40]
+
+@internal
+@view
+def _sum(s: S) -> uint256:
+    return s.a + s.b[0] + s.b[1] + s.b[2] + len(s.c)
+
+@internal
+def _mut(s: S) -> uint256:
+    s.a = s.a + 1
+    s.b[1] = 7
+    return s.a + s.b[1]
+
+@external
+def f(x: uint256, y: Bytes[40]) -> (uint256, uint256, uint256):
+    s: S = S(a=x, b=[x, 2, 3], c=y)
+    r1: uint256 = self._sum(s)
+    r2: uint256 = self._mut(s)
+    r3: uint256 = self._sum(s)
+    return r1, r2, r3
+
+@external
+def g(x: uint256, y: Bytes[40]) -> (uint256, uint256):
+    s: S = S(a=x, b=[1, x, 3], c=y)
+    t: S = s
+    t.b[0] = 50
+    return self._sum(s), self._sum(t)
+''')
+
+_add("cp_clobber", '''
+struct S:
+    a: uint256
+    b: uint256[3]
+    c: uint256
+
+@external
+def f(x: uint256, i: uint256) -> (uint256[5], uint256[5]):
+    a: uint256[5] = empty(uint256[5])
+    a[0] = x
+    a[4] = x + 4
+    b: uint256[5] = a
+    a[1] = 777
+    c: uint256[5] = b
+    b[2] = a[i]
+    return c, a
+
+@external
+def g(x: uint256, i: uint256) -> (uint256[3], S, uint256):
+    s: S = empty(S)
+    s.a = x
+    s.b[2] = x + 3
+    t: S = s
+    u: uint256[3] = t.b
+    s.b[1] = 9
+    v: uint256[3] = t.b
+    w: S = t
+    return v, w, u[i]
+
+@external
+def h(a: Bytes[64], i: uint256) -> (Bytes[64], Bytes[64], uint256):
+    b: Bytes[64] = a
+    c: Bytes[64] = b
+    d: Bytes[64] = slice(c, i, 3)
+    c = d
+    e: Bytes[64] = b
+    return c, e, len(d)
+''')
+
+_add("cp_returns", '''
+@internal
+def _mk(x: uint256) -> uint256[4]:
+    return [x, x + 1, x + 2, x + 3]
+
+@internal
+def _id(a: uint256[4]) -> uint256[4]:
+    return a
+
+@internal
+def _bump(a: uint256[4]) -> uint256[4]:
+    a[0] += 1
+    return a
+
+@external
+def f(x: uint256) -> (uint256[4], uint256[4]):
+    a: uint256[4] = self._mk(x)
+    b: uint256[4] = a
+    a[2] = 99
+    c: uint256[4] = self._mk(x + 10)
+    c[0] = a[2]
+    return b, c
+
+@external
+def g(x: uint256) -> (uint256[4], uint256[4], uint256[4]):
+    a: uint256[4] = self._mk(x)
+    b: uint256[4] = self._id(a)
+    c: uint256[4] = self._bump(a)
+    b[3] = 5
+    return a, b, c
+
+@external
+def h(x: uint256) -> uint256:
+    a: uint256[4] = self._bump(self._bump(self._mk(x)))
+    return a[0] + a[1]
+''')
+
+_add("cp_bytes", '''
+@internal
+@view
+def _len2(a: Bytes[96], b: Bytes[96]) -> uint256:
+    return len(a) * 1000 + len(b)
+
+@internal
+def _tail(a: Bytes[96]) -> Bytes[96]:
+    b: Bytes[96] = a
+    return slice(b, 1, len(b) - 1)
+
+@external
+def f(a: Bytes[96]) -> (Bytes[96], Bytes[96], uint256):
+    b: Bytes[96] = a
+    c: Bytes[96] = b
+    d: Bytes[96] = self._tail(c)
+    return c, d, self._len2(b, d)
+
+@external
+def g(a: Bytes[64], k: uint256) -> (Bytes[64], bytes32):
+    b: Bytes[64] = a
+    c: Bytes[64] = b
+    if k > 3:
+        b = slice(concat(a, a), k, 64)
+    return c, keccak256(b)
+
+@external
+def h(a: String[50]) -> (String[50], String[100]):
+    b: String[50] = a
+    c: String[100] = concat(b, a)
+    return b, c
+''')
+
+_add("cp_dyn_loops", '''
+@internal
+@view
+def _total(xs: DynArray[uint256, 6]) -> uint256:
+    t: uint256 = 0
+    for x: uint256 in xs:
+        t += x
+    return t
+
+@internal
+def _push(xs: DynArray[uint256, 6], v: uint256) -> DynArray[uint256, 6]:
+    if len(xs) < 6:
+        xs.append(v)
+    return xs
+
+@internal
+@view
+def _outer(xs: DynArray[uint256, 6]) -> uint256:
+    return self._total(xs) + len(xs)
+
+@external
+def f(xs: DynArray[uint256, 6], n: uint256) -> (uint256, DynArray[uint256, 6], DynArray[uint256, 6]):
+    ys: DynArray[uint256, 6] = xs
+    acc: uint256 = 0
+    for i: uint256 in range(n, bound=4):
+        zs: DynArray[uint256, 6] = ys
+        ys = self._push(zs, i)
+        acc += self._outer(zs)
+    return acc, xs, ys
+''')
+
+_add("cp_alias", '''
+struct P:
+    x: uint256
+    y: uint256
+
+@internal
+def _two(a: P, b: P) -> uint256:
+    a.x = 100
+    return a.x + b.x
+
+@internal
+def _chain_b(p: P) -> uint256:
+    p.y = p.y * 2
+    return p.y
+
+@internal
+def _chain_a(p: P) -> uint256:
+    r: uint256 = self._chain_b(p)
+    return r + p.y
+
+@external
+def f(v: uint256) -> (uint256, uint256, uint256):
+    p: P = P(x=v, y=v + 1)
+    r: uint256 = self._two(p, p)
+    return r, p.x, p.y
+
+@external
+def g(v: uint256) -> (uint256, uint256):
+    p: P = P(x=v, y=v + 1)
+    r: uint256 = self._chain_a(p)
+    return r, p.y
+''')
+
+_add("cp_ternary", '''
+@internal
+@view
+def _first(a: uint256[3]) -> uint256:
+    return a[0] * 7 + a[2]
+
+@internal
+def _mk(v: uint256) -> uint256[3]:
+    return [v, v, v + 2]
+
+@external
+def f(c: bool, v: uint256) -> (uint256, uint256):
+    a: uint256[3] = [1, 2, 3]
+    b: uint256[3] = [v, 5, 6]
+    r: uint256 = self._first(a if c else b)
+    d: uint256[3] = self._mk(v) if c else b
+    d[1] = r
+    return r, self._first(d)
+''')
+
+_add("cp_storage", '''
+struct T:
+    n: uint256
+    arr: uint256[3]
+    tag: Bytes[33]
+
+st: T
+hist: DynArray[uint256, 5]
+
+@internal
+@view
+def _peek(t: T) -> uint256:
+    return t.n + t.arr[2] + len(t.tag)
+
+@internal
+def _save(t: T) -> uint256:
+    self.st = t
+    return self._peek(t)
+
+@external
+def f(n: uint256, tag: Bytes[33]) -> (uint256, uint256, uint256):
+    t: T = T(n=n, arr=[n, n, 7], tag=tag)
+    a: uint256 = self._save(t)
+    u: T = self.st
+    u.arr[2] = 1
+    b: uint256 = self._peek(u)
+    self.hist.append(a)
+    h: DynArray[uint256, 5] = self.hist
+    return a, b, len(h)
+
+@external
+@view
+def get() -> (T, DynArray[uint256, 5]):
+    return self.st, self.hist
+''')
+
+_add("cp_code_rd", '''
+TABLE: constant(uint256[4]) = [11, 22, 33, 44]
+NAME: constant(Bytes[36]) = b"abcdefghijklmnopqrstuvwxyz0123456789"
+
+@internal
+@view
+def _pick(t: uint256[4], i: uint256) -> uint256:
+    return t[i]
+
+@internal
+@view
+def _h(b: Bytes[36]) -> bytes32:
+    return keccak256(b)
+
+@external
+@view
+def f(i: uint256) -> (uint256, bytes32, Bytes[36]):
+    t: uint256[4] = TABLE
+    n: Bytes[36] = NAME
+    m: Bytes[36] = n
+    return self._pick(t, i), self._h(m), n
+
+@external
+def g(target: address, d: Bytes[36]) -> (Bytes[64], Bytes[64]):
+    r: Bytes[64] = raw_call(target, d, max_outsize=64, revert_on_failure=False)[1]
+    q: Bytes[64] = r
+    return q, r
+
+@external
+def id(x: Bytes[36]) -> Bytes[36]:
+    return x
+''')
+
+
 class Snap:
     """structured copy of a function: blocks of (opcode, operands, outputs, wm, wrd, alloca id)"""
 
@@ -310,6 +616,8 @@ def part_copy_passes(ctx):
     levels = ["gas"] if quick else ["gas", "codesize", "O3"]
     with Observer() as obs:
         nfail = compile_corpus(progs, levels, obs)
+        nfail += compile_corpus(COPY_CORPUS, ["gas", "codesize", "O3"], obs)
+    progs = progs + COPY_CORPUS
     t1 = time.time()
     seen, recs = set(), []
     for r in obs.records:
